@@ -77,3 +77,16 @@ package stackitem
 //@ opt frame off
 //@ requires w != nil && w.seen != nil
 //@ call serialize requires[budget] w.limit == MaxSerialized && forallkeys(w.seen, k, !has(w.seen, k))
+
+// Map.Add panics on a key that is not a valid map key (or on a read-only map): a decoder must
+// have checked the key before (C17: decoders never panic).
+//@ prop C17
+//@ func (*Map).Add
+//@ assumed
+//@ requires[nopanic] validKey(key)
+//@ requires i != nil
+//@ modifies i.value, i.dict, elems(MapElement)
+//@ func NewMap
+//@ assumed
+//@ pure
+//@ ensures result != nil && fresh(result)
